@@ -159,6 +159,10 @@ pub fn c04(args: &Args) -> Report {
             if args.thorough() && i % 6 == 0 {
                 p.content_lens.push(chunk + 4096);
             }
+            if small {
+                // a few short histories only: make sure the 4 MiB map grows within 25 steps
+                p.content_lens = vec![1_200_000, 1_500_000, 7];
+            }
         }
         p.max_extra_tags = 2;
         // every kind class and its boundaries (only 20000..=29999 may be missing from the id index)
